@@ -82,12 +82,40 @@ def _cvc5(smt2, timeout_s):
 def discharge(ob, inputs, timeout_s=30, use_cvc5=True, ufuns=None):
     t0 = time.time()
     s = z3.Solver()
-    s.set('timeout', int(timeout_s * 1000))
+    first = min(timeout_s, 4)
+    s.set('timeout', int(first * 1000))
     s.set('random_seed', 7)
     s.add(*ob.pc)
     s.add(z3.Not(ob.formula))
     r = s.check()
     ob.backend = 'z3'
+    if r == z3.unknown:
+        if use_cvc5:
+            try:
+                res0 = _cvc5(s.to_smt2().replace('(check-sat)', ''), timeout_s)
+            except Exception:
+                res0 = 'unknown'
+            if res0 == 'unsat':
+                ob.status, ob.backend = 'discharged', 'cvc5'
+                ob.time = time.time() - t0
+                return ob
+        # sound over-approximation: integers relaxed to reals, floor/ToInt replaced by a fresh real with its bounds and the
+        # pairwise monotonicity instances.  `unsat` of the relaxation implies `unsat` of the obligation; `sat` proves nothing.
+        try:
+            rel = relax_to_reals(list(ob.pc) + [z3.Not(ob.formula)])
+        except Exception:
+            rel = None
+        if rel is not None:
+            s3 = z3.Tactic('qfnra-nlsat').solver() if not _has_quantifier(rel) else z3.Solver()
+            s3.set('timeout', int(timeout_s * 1000))
+            s3.add(*rel)
+            if s3.check() == z3.unsat:
+                ob.status, ob.backend = 'discharged', 'z3:real-relaxation(nlsat)'
+                ob.time = time.time() - t0
+                return ob
+        s.set('timeout', int(timeout_s * 1000))
+        r = s.check()
+        use_cvc5 = False
     if r == z3.unknown and use_cvc5:
         try:
             res = _cvc5(s.to_smt2().replace('(check-sat)', ''), timeout_s)
@@ -185,3 +213,121 @@ def extract_model(m, inputs, ufuns=None):
     for k, v in inputs.items():
         out[k] = conv(v)
     return out
+
+
+# ------------------------------------------------------------------------------------------ real relaxation
+def _has_quantifier(fs):
+    seen = set()
+
+    def rec(e):
+        if e.get_id() in seen:
+            return False
+        seen.add(e.get_id())
+        if z3.is_quantifier(e):
+            return True
+        return any(rec(c) for c in e.children())
+    return any(rec(f) for f in fs)
+
+
+def relax_to_reals(formulas):
+    """Int -> Real relaxation of a list of formulas (returns None if an operator is not handled).
+    ToInt(t) becomes a fresh real v with  v <= t < v + 1, v is a lower bound that is monotone in t (pairwise instances)."""
+    cache = {}
+    floors = []          # (arg_real, var)
+    extra = []
+    K = z3
+
+    def conv(e):
+        i = e.get_id()
+        if i in cache:
+            return cache[i]
+        r = conv1(e)
+        cache[i] = r
+        return r
+
+    def conv1(e):
+        if K.is_quantifier(e):
+            raise ValueError('quantifier')
+        if K.is_int_value(e):
+            return K.RealVal(e.as_long())
+        if K.is_rational_value(e) or K.is_true(e) or K.is_false(e):
+            return e
+        d = e.decl()
+        k = d.kind()
+        ch = e.children()
+        if K.is_const(e) and k == K.Z3_OP_UNINTERPRETED:
+            if K.is_int(e):
+                return K.Real('rlx!' + str(e))
+            return e
+        if k == K.Z3_OP_TO_REAL:
+            return conv(ch[0])
+        if k == K.Z3_OP_TO_INT:
+            a = conv(ch[0])
+            v = K.Real(f'floor!{len(floors)}')
+            floors.append((a, v))
+            extra.append(K.And(v <= a, a < v + 1, K.Implies(a >= 0, v >= 0), K.Implies(a >= 1, v >= 1), K.Implies(a < 0, v <= -1)))
+            return v
+        if k == K.Z3_OP_IS_INT:
+            return K.BoolVal(True)
+        c = [conv(x) for x in ch]
+        if k == K.Z3_OP_ADD:
+            return K.Sum(c)
+        if k == K.Z3_OP_MUL:
+            return K.Product(c)
+        if k == K.Z3_OP_SUB:
+            r = c[0]
+            for x in c[1:]:
+                r = r - x
+            return r
+        if k == K.Z3_OP_UMINUS:
+            return -c[0]
+        if k == K.Z3_OP_DIV:
+            return c[0] / c[1]
+        if k in (K.Z3_OP_IDIV, K.Z3_OP_MOD, K.Z3_OP_REM):
+            if not K.is_int_value(ch[1]) or ch[1].as_long() <= 0:
+                raise ValueError('int division by a non-constant')
+            b = ch[1].as_long()
+            q = K.Real(f'floor!{len(floors)}')
+            floors.append((c[0] / b, q))
+            extra.append(K.And(q * b <= c[0], c[0] < q * b + b, K.Implies(c[0] >= 0, q >= 0), K.Implies(c[0] >= b, q >= 1)))
+            if k == K.Z3_OP_IDIV:
+                return q
+            return c[0] - q * b
+        if k == K.Z3_OP_LE:
+            return c[0] <= c[1]
+        if k == K.Z3_OP_LT:
+            return c[0] < c[1]
+        if k == K.Z3_OP_GE:
+            return c[0] >= c[1]
+        if k == K.Z3_OP_GT:
+            return c[0] > c[1]
+        if k == K.Z3_OP_EQ:
+            return c[0] == c[1]
+        if k == K.Z3_OP_DISTINCT:
+            return K.Distinct(*c)
+        if k == K.Z3_OP_ITE:
+            return K.If(c[0], c[1], c[2])
+        if k == K.Z3_OP_AND:
+            return K.And(*c)
+        if k == K.Z3_OP_OR:
+            return K.Or(*c)
+        if k == K.Z3_OP_NOT:
+            return K.Not(c[0])
+        if k == K.Z3_OP_IMPLIES:
+            return K.Implies(c[0], c[1])
+        if k == K.Z3_OP_XOR:
+            return K.Xor(c[0], c[1])
+        if k == K.Z3_OP_UNINTERPRETED:
+            raise ValueError('uninterpreted function')
+        raise ValueError(f'operator {d.name()}')
+    try:
+        out = [conv(f) for f in formulas]
+    except ValueError:
+        return None
+    for i in range(len(floors)):
+        for j in range(len(floors)):
+            if i != j:
+                a, v = floors[i]
+                b, w = floors[j]
+                extra.append(K.Implies(a <= b, v <= w))
+    return out + extra
